@@ -167,7 +167,13 @@ class PipeEndpoint():
         return self._pipe.send(obj)
 
     def recv(self):
-        return self._pipe.recv()
+        try:
+            return self._pipe.recv()
+        except EOFError:
+            raise
+        except OSError as e:
+            # e.g. 'got end of file during message': the other side died while sending - nothing more is going to come
+            raise EOFError() from e
 
     def poll(self, timeout=0):
         if time == 0:
@@ -190,7 +196,7 @@ class PipeEndpoint():
                 raise queue.Empty
 
         try:
-            return self._pipe.recv()
+            return self.recv()
         except (EOFError, BrokenPipeError):
             raise queue.Empty
 
